@@ -603,6 +603,10 @@ class ModelBase:
                     st.env[test.id] = v.w(maybe_none=None, truthy=True, maybe_empty=None)
                 else:
                     st.env[test.id] = v.w(falsy=True)
+            # a name that stands for a condition (`ok = x != -1; if ok:`): refine on the condition itself
+            d = self._cond_def(frame, test)
+            if d is not None:
+                self.refine(interp, d, frame, st, branch)
             return
         # `if traj.coords_are_displacement:` - the storage mode flag of a trajectory object
         if isinstance(test, ast.Attribute):
@@ -635,9 +639,23 @@ class ModelBase:
             if v is not None and branch:
                 st.env[tgt] = v.w(maybe_empty=None, nonempty=True)
             return
+        if isinstance(test, ast.Compare) and len(test.ops) > 1 and branch:
+            # a chained comparison that holds: every link holds
+            operands = [test.left] + list(test.comparators)
+            for k_, op_ in enumerate(test.ops):
+                link = ast.Compare(left=operands[k_], ops=[op_], comparators=[operands[k_ + 1]])
+                ast.copy_location(link, test)
+                self.refine(interp, link, frame, st, True)
+            return
         if isinstance(test, ast.Compare) and len(test.ops) == 1:
             op = test.ops[0]
             left, right = test.left, test.comparators[0]
+            if isinstance(op, (ast.Eq, ast.NotEq)) and not isinstance(left, (ast.Subscript, ast.Name, ast.Attribute, ast.Call)) and isinstance(right, (ast.Subscript, ast.Name)):
+                left, right = right, left  # constant on the left: `-1 != x`
+            elif isinstance(op, (ast.Eq, ast.NotEq)) and isinstance(left, ast.Name) and isinstance(right, ast.Subscript):
+                lv0 = interp.value_of(left)
+                if lv0 is not None and (lv0.nosite_marker or lv0.gname == 'gemdat.transitions.NOSITE'):
+                    left, right = right, left  # `NOSITE != row['col']`
             rv = interp.value_of(right)
             lv = interp.value_of(left)
             # x is None / x is not None
@@ -706,6 +724,40 @@ class ModelBase:
 
     def refine_ext(self, interp, test, frame, st, branch, op, left, right, lv, rv):
         return
+
+    def _cond_def(self, frame, name_node):
+        """The defining condition of a once-assigned local used as a test, when none of its operands is rebound in between."""
+        fn = frame.fn if frame is not None else None
+        if fn is None:
+            return None
+        cache = getattr(self, '_cond_defs', None)
+        if cache is None:
+            cache = self._cond_defs = {}
+        info = cache.get(id(fn.node))
+        if info is None:
+            counts, values, stores = {}, {}, []
+            stack = list(fn.node.body)
+            while stack:
+                n = stack.pop()
+                if isinstance(n, (ast.FunctionDef, ast.AsyncFunctionDef, ast.Lambda, ast.ClassDef)):
+                    continue
+                if isinstance(n, ast.Name) and isinstance(n.ctx, (ast.Store, ast.Del)):
+                    counts[n.id] = counts.get(n.id, 0) + 1
+                    stores.append((n.id, n.lineno))
+                if isinstance(n, ast.Assign) and len(n.targets) == 1 and isinstance(n.targets[0], ast.Name):
+                    values[n.targets[0].id] = n
+                stack.extend(ast.iter_child_nodes(n))
+            info = cache[id(fn.node)] = (counts, values, stores)
+        counts, values, stores = info
+        a = values.get(name_node.id)
+        if a is None or counts.get(name_node.id, 0) != 1 or not isinstance(a.value, (ast.Compare, ast.BoolOp, ast.UnaryOp)):
+            return None
+        if a.lineno >= name_node.lineno:
+            return None
+        used = {x.id for x in ast.walk(a.value) if isinstance(x, ast.Name)}
+        if any(nm in used and a.lineno < ln < name_node.lineno for nm, ln in stores):
+            return None
+        return a.value
 
     # ------------------------------------------------------------------ operators (python level)
     def boolop(self, interp, st, op, vals, node):
